@@ -1155,6 +1155,8 @@ def C05(ctx):
                     sig = None
                     if opk == 'X' and c.get('mode') == 's' and dialect_of(ctx.cfg) == 'mp11' and pl in stamp:
                         sig = 'deferred_not_reoffered_after_single_step'
+                    if dialect_of(ctx.cfg) == 'mp11' and any(c2['op'] == 'RP' and c2['n'] >= 65000 for c2 in ctx.case[:i]):
+                        sig = 'mp11_deferred_sequence_counter_wraps'
                     fail('C05', 'occurrence #%d (%s) is still pending at a quiescent point although no entered state defers %s (entered: %s)'
                          % (pl, tn, tn, sorted(active)), ctx, i, sig=sig)
                 if pl not in stamp:
@@ -1568,7 +1570,7 @@ def C13(ctx):
 
 
 # ---------------------------------------------------------------------------------------------- C14 (front-end differential part)
-FE_NAMES = {0: 'functor', 1: 'basic+row2', 2: 'puml', 3: 'puml(restyled)'}
+FE_NAMES = {0: 'functor', 1: 'basic+row2', 2: 'puml', 3: 'puml(restyled)', 4: 'euml'}
 
 
 def C14(ctx):
